@@ -1,18 +1,23 @@
 package main
 
-// Canonical local names.
+// Canonical form of unchanged functions.
 //
-// Many rules spell small expressions of the anchored functions ("offset+length > attrs.Size"). The
-// names of locals, parameters and receivers are not part of a function's meaning, so before the rules run
-// every function that is alpha-equivalent to its reference version — same syntax tree, same binding
-// structure, only local variable names differ — is given the reference's local names back (in memory, as an
-// overlay). The rules then see the names they were written against. The reference (names_ref.json: per
-// function a hash of its shape and the list of its local names in order of first occurrence) is generated
-// with `tvc names-ref` from the tree the rules were confirmed on; it is a naming aid only: a function whose
-// shape differs from the reference is analysed exactly as it is written.
+// Many rules spell small expressions of the anchored functions ("offset+length > attrs.Size"). The names of
+// locals, the orientation of a comparison (a < b vs b > a) and the spelling of an increment (x++ vs x += 1)
+// are not part of a function's meaning. Before the rules run, every function that equals its reference
+// version up to exactly these three things is replaced, in an in-memory overlay, by the reference text of
+// that function; the packages are then loaded once more. The rules see the spelling they were written
+// against. The reference (funcs_ref.json: per function a normalised structural hash and its source text)
+// is generated with `tvc names-ref` from the tree the rules were confirmed on. It is a spelling aid only:
+// a function whose normalised hash differs from the reference is analysed exactly as it is written.
 //
-// The renamed program is alpha-equivalent to the one on disk, so every verdict on it is a verdict on the
-// tree under analysis.
+// Soundness of the normalisation: the hash is a Merkle hash over the syntax tree in which (1) every local
+// variable is replaced by the index of its declaration (so equal hashes imply the same binding structure —
+// alpha-equivalence), (2) a comparison whose operands are free of calls, receives and function literals is
+// hashed with its operands in a fixed order (mirroring such a comparison does not change its value or any
+// effect), (3) x++ / x-- hash like x += 1 / x -= 1, parentheses are transparent. Everything else — node
+// kinds, operators, literals, every non-local identifier, which optional parts are present — goes into the
+// hash unchanged. The substituted text is therefore a program equivalent to the one on disk.
 
 import (
 	"crypto/sha256"
@@ -30,170 +35,232 @@ import (
 	"golang.org/x/tools/go/packages"
 )
 
-type fnShape struct {
-	Hash  string   `json:"hash"`
-	Names []string `json:"names"`
+type fnRef struct {
+	Hash string `json:"h"`
+	Src  string `json:"s"`
 }
 
-type localOcc struct {
-	id  *ast.Ident
-	idx int // index of the variable in order of first occurrence
-}
-
-// shapeOfFunc computes the shape hash of a declaration and the occurrences of its local variables.
-func shapeOfFunc(info *types.Info, fd *ast.FuncDecl) (fnShape, []localOcc, map[string]bool) {
-	objIdx := map[types.Object]int{}
-	tsIdx := map[*ast.Ident]int{} // type-switch symbolic variables (no object of their own)
-	var names []string
-	idxOf := func(o types.Object, name string) int {
-		if i, ok := objIdx[o]; ok {
-			return i
-		}
-		objIdx[o] = len(names)
-		names = append(names, name)
-		return len(names) - 1
-	}
-	// pre-pass: bind the implicit per-clause objects of a type switch to its symbolic variable
-	ast.Inspect(fd, func(n ast.Node) bool {
-		ts, ok := n.(*ast.TypeSwitchStmt)
-		if !ok {
-			return true
-		}
-		as, ok := ts.Assign.(*ast.AssignStmt)
-		if !ok || len(as.Lhs) != 1 {
-			return true
-		}
-		id, ok := as.Lhs[0].(*ast.Ident)
-		if !ok || id.Name == "_" {
-			return true
-		}
-		// the index is assigned when the walk reaches the identifier; remember the clause objects
-		tsIdx[id] = -1
-		return true
-	})
-	var occ []localOcc
-	nonLocal := map[string]bool{}
+func hs(parts ...string) string {
 	h := sha256.New()
-	w := func(s string) { h.Write([]byte(s)); h.Write([]byte{0}) }
-	ast.Inspect(fd, func(n ast.Node) bool {
-		if n == nil {
-			w(")")
-			return true
+	for _, p := range parts {
+		h.Write([]byte(p))
+		h.Write([]byte{0})
+	}
+	return hex.EncodeToString(h.Sum(nil))[:20]
+}
+
+// normHash computes the normalised hash of a function declaration.
+func normHash(info *types.Info, fd *ast.FuncDecl) string {
+	// local variables by order of declaration
+	var objs []types.Object
+	seen := map[types.Object]bool{}
+	addObj := func(o types.Object) {
+		if o != nil && isLocalVar(o) && !seen[o] {
+			seen[o] = true
+			objs = append(objs, o)
 		}
-		w(fmt.Sprintf("%T", n))
+	}
+	tsVar := map[*ast.Ident]token.Pos{}
+	ast.Inspect(fd, func(n ast.Node) bool {
 		switch v := n.(type) {
 		case *ast.Ident:
-			if _, isTS := tsIdx[v]; isTS {
-				i := len(names)
-				names = append(names, v.Name)
-				tsIdx[v] = i
-				// clause objects share the index
-				ast.Inspect(fd, func(m ast.Node) bool {
-					if ts, ok := m.(*ast.TypeSwitchStmt); ok {
-						if as, ok := ts.Assign.(*ast.AssignStmt); ok && len(as.Lhs) == 1 && as.Lhs[0] == ast.Expr(v) {
-							for _, cl := range ts.Body.List {
-								if o := info.Implicits[cl]; o != nil {
-									objIdx[o] = i
-								}
-							}
-						}
+			addObj(info.Defs[v])
+			addObj(info.Uses[v])
+		case *ast.TypeSwitchStmt:
+			if as, ok := v.Assign.(*ast.AssignStmt); ok && len(as.Lhs) == 1 {
+				if id, ok := as.Lhs[0].(*ast.Ident); ok && id.Name != "_" {
+					tsVar[id] = id.Pos()
+					for _, cl := range v.Body.List {
+						addObj(info.Implicits[cl])
 					}
-					return true
-				})
-				occ = append(occ, localOcc{v, i})
-				w(fmt.Sprintf("L%d", i))
-				return true
+				}
+			}
+		}
+		return true
+	})
+	sort.SliceStable(objs, func(i, j int) bool { return objs[i].Pos() < objs[j].Pos() })
+	idx := map[types.Object]int{}
+	posIdx := map[token.Pos]int{}
+	n := 0
+	for _, o := range objs {
+		if k, ok := posIdx[o.Pos()]; ok { // the per-clause objects of a type switch share one declaration
+			idx[o] = k
+			continue
+		}
+		posIdx[o.Pos()] = n
+		idx[o] = n
+		n++
+	}
+	var h func(nd ast.Node) string
+	h = func(nd ast.Node) string {
+		if nd == nil {
+			return "nil"
+		}
+		switch v := nd.(type) {
+		case *ast.ParenExpr:
+			return h(v.X)
+		case *ast.Ident:
+			if p, ok := tsVar[v]; ok {
+				if k, ok := posIdx[p]; ok {
+					return fmt.Sprintf("L%d", k)
+				}
+				return "Lts"
 			}
 			o := info.Defs[v]
 			if o == nil {
 				o = info.Uses[v]
 			}
 			if o != nil && isLocalVar(o) {
-				i := idxOf(o, v.Name)
-				occ = append(occ, localOcc{v, i})
-				w(fmt.Sprintf("L%d", i))
-			} else {
-				w(v.Name)
-				// names a local could capture: package-level objects, imported packages, builtins — not fields,
-				// methods or labels, which are never looked up in the local scope
-				switch x := o.(type) {
-				case *types.Var:
-					if !x.IsField() {
-						nonLocal[v.Name] = true
+				return fmt.Sprintf("L%d", idx[o])
+			}
+			return "I:" + v.Name
+		case *ast.BasicLit:
+			return "B:" + v.Kind.String() + ":" + v.Value
+		case *ast.BinaryExpr:
+			x, y := h(v.X), h(v.Y)
+			if pureExpr(v.X) && pureExpr(v.Y) {
+				switch v.Op {
+				case token.LSS:
+					return hs("LT", x, y)
+				case token.GTR:
+					return hs("LT", y, x)
+				case token.LEQ:
+					return hs("LE", x, y)
+				case token.GEQ:
+					return hs("LE", y, x)
+				case token.EQL, token.NEQ:
+					if y < x {
+						x, y = y, x
 					}
-				case *types.Func:
-					if sig, ok := x.Type().(*types.Signature); ok && sig.Recv() == nil {
-						nonLocal[v.Name] = true
-					}
-				case *types.Label, nil:
-				default:
-					nonLocal[v.Name] = true
+					return hs(v.Op.String(), x, y)
 				}
 			}
-		case *ast.BasicLit:
-			w(v.Value)
-		case *ast.BinaryExpr:
-			w(v.Op.String())
-		case *ast.UnaryExpr:
-			w(v.Op.String())
-		case *ast.AssignStmt:
-			w(v.Tok.String())
+			return hs("bin", v.Op.String(), x, y)
 		case *ast.IncDecStmt:
-			w(v.Tok.String())
-		case *ast.BranchStmt:
-			w(v.Tok.String())
-		case *ast.RangeStmt:
-			w(v.Tok.String())
-		case *ast.GenDecl:
-			w(v.Tok.String())
-		case *ast.ChanType:
-			w(fmt.Sprint(v.Dir))
-		case *ast.CallExpr:
-			w(fmt.Sprint(v.Ellipsis.IsValid()))
-		case *ast.SliceExpr:
-			w(fmt.Sprint(v.Slice3))
+			op := "+="
+			if v.Tok == token.DEC {
+				op = "-="
+			}
+			return hs("assign", op, hs("list", h(v.X)), hs("list", "B:INT:1"))
+		case *ast.AssignStmt:
+			var l, r []string
+			for _, e := range v.Lhs {
+				l = append(l, h(e))
+			}
+			for _, e := range v.Rhs {
+				r = append(r, h(e))
+			}
+			return hs("assign", v.Tok.String(), hs(append([]string{"list"}, l...)...), hs(append([]string{"list"}, r...)...))
 		}
-		return true
-	})
-	return fnShape{Hash: hex.EncodeToString(h.Sum(nil))[:24], Names: names}, occ, nonLocal
+		parts := []string{fmt.Sprintf("%T", nd)}
+		switch v := nd.(type) {
+		case *ast.UnaryExpr:
+			parts = append(parts, v.Op.String())
+		case *ast.BranchStmt:
+			parts = append(parts, v.Tok.String())
+		case *ast.RangeStmt:
+			parts = append(parts, v.Tok.String(), fmt.Sprint(v.Key != nil, v.Value != nil))
+		case *ast.GenDecl:
+			parts = append(parts, v.Tok.String())
+		case *ast.ChanType:
+			parts = append(parts, fmt.Sprint(v.Dir))
+		case *ast.CallExpr:
+			parts = append(parts, fmt.Sprint(v.Ellipsis.IsValid()))
+		case *ast.SliceExpr:
+			parts = append(parts, fmt.Sprint(v.Slice3, v.Low != nil, v.High != nil, v.Max != nil))
+		case *ast.ForStmt:
+			parts = append(parts, fmt.Sprint(v.Init != nil, v.Cond != nil, v.Post != nil))
+		case *ast.IfStmt:
+			parts = append(parts, fmt.Sprint(v.Init != nil, v.Else != nil))
+		case *ast.SwitchStmt:
+			parts = append(parts, fmt.Sprint(v.Init != nil, v.Tag != nil))
+		case *ast.TypeSwitchStmt:
+			parts = append(parts, fmt.Sprint(v.Init != nil))
+		case *ast.CaseClause:
+			parts = append(parts, fmt.Sprint(v.List == nil, len(v.List)))
+		case *ast.CommClause:
+			parts = append(parts, fmt.Sprint(v.Comm == nil))
+		case *ast.ValueSpec:
+			parts = append(parts, fmt.Sprint(v.Type != nil, len(v.Names), len(v.Values)))
+		case *ast.Field:
+			parts = append(parts, fmt.Sprint(len(v.Names), v.Tag != nil))
+		case *ast.FuncDecl:
+			parts = append(parts, fmt.Sprint(v.Recv != nil))
+		case *ast.FuncType:
+			parts = append(parts, fmt.Sprint(v.TypeParams != nil, v.Params != nil, v.Results != nil))
+		case *ast.TypeAssertExpr:
+			parts = append(parts, fmt.Sprint(v.Type != nil))
+		case *ast.KeyValueExpr, *ast.SelectorExpr, *ast.IndexExpr, *ast.StarExpr, *ast.CompositeLit:
+		case *ast.ReturnStmt:
+			parts = append(parts, fmt.Sprint(len(v.Results)))
+		case *ast.LabeledStmt, *ast.DeferStmt, *ast.GoStmt, *ast.SendStmt, *ast.ExprStmt, *ast.BlockStmt, *ast.DeclStmt, *ast.EmptyStmt, *ast.SelectStmt:
+		case *ast.CommentGroup, *ast.Comment:
+			return "" // comments are not part of the program
+		}
+		for _, ch := range childNodes(nd) {
+			if s := h(ch); s != "" {
+				parts = append(parts, s)
+			}
+		}
+		return hs(parts...)
+	}
+	return h(fd)
 }
 
 func fnRefKey(pkgPath string, fd *ast.FuncDecl) string {
 	return pkgPath + "|" + recvTypeName(fd) + "|" + fd.Name.Name
 }
 
-var namesRefCache map[string]fnShape
+var funcsRefCache map[string]fnRef
 
-func loadNamesRef() map[string]fnShape {
-	if namesRefCache != nil {
-		return namesRefCache
+func loadFuncsRef() map[string]fnRef {
+	if funcsRefCache != nil {
+		return funcsRefCache
 	}
-	namesRefCache = map[string]fnShape{}
-	b, err := os.ReadFile(filepath.Join(verifDir, "names_ref.json"))
+	funcsRefCache = map[string]fnRef{}
+	b, err := os.ReadFile(filepath.Join(verifDir, "funcs_ref.json"))
 	if err != nil {
-		return namesRefCache
+		return funcsRefCache
 	}
-	_ = json.Unmarshal(b, &namesRefCache)
-	return namesRefCache
+	_ = json.Unmarshal(b, &funcsRefCache)
+	return funcsRefCache
 }
 
-// canonicalNamesOverlay: for every function of the loaded root packages whose shape equals the reference's
-// but whose local names differ, the source with the reference names. sources gives the text the packages were
-// loaded from (overlay content, else the file on disk).
+// declText: the source text of a declaration without its doc comment.
+func declText(tf *token.File, src []byte, fd *ast.FuncDecl) (int, int, string) {
+	off, end := tf.Offset(fd.Pos()), tf.Offset(fd.End())
+	return off, end, string(src[off:end])
+}
+
+// canonicalNamesOverlay: for every function of the loaded root packages whose normalised hash equals the
+// reference's but whose text differs, the file with the reference text of that function.
 func canonicalNamesOverlay(pkgs []*packages.Package, given map[string][]byte) (map[string][]byte, int) {
-	ref := loadNamesRef()
+	ref := loadFuncsRef()
 	if len(ref) == 0 || os.Getenv("TVC_NO_CANON_NAMES") != "" {
 		return nil, 0
 	}
 	out := map[string][]byte{}
 	nFns := 0
+	done := map[string]bool{}
 	for _, pk := range pkgs {
-		if pk.TypesInfo == nil {
+		if pk.TypesInfo == nil || len(pk.Errors) > 0 {
 			continue
 		}
 		for _, f := range pk.Syntax {
 			tf := pk.Fset.File(f.Pos())
-			if tf == nil || isGenerated(tf.Name()) {
+			if tf == nil || isGenerated(tf.Name()) || done[tf.Name()] {
+				continue
+			}
+			done[tf.Name()] = true
+			src, ok := given[tf.Name()]
+			if !ok {
+				b, err := os.ReadFile(tf.Name())
+				if err != nil {
+					continue
+				}
+				src = b
+			}
+			if len(src) != tf.Size() {
 				continue
 			}
 			var edits []alphaEdit
@@ -206,64 +273,26 @@ func canonicalNamesOverlay(pkgs []*packages.Package, given map[string][]byte) (m
 				if !ok {
 					continue
 				}
-				sh, occ, nonLocal := shapeOfFunc(pk.TypesInfo, fd)
-				if sh.Hash != r.Hash || len(sh.Names) != len(r.Names) {
+				off, end, cur := declText(tf, src, fd)
+				if cur == r.Src {
+					continue
+				}
+				if normHash(pk.TypesInfo, fd) != r.Hash {
 					if os.Getenv("TVC_DEBUG") != "" {
-						fmt.Fprintf(os.Stderr, "canon-names: %s shape differs from the reference (%d vs %d locals)\n", fnRefKey(pk.PkgPath, fd), len(sh.Names), len(r.Names))
+						fmt.Fprintf(os.Stderr, "canon: %s differs from the reference in more than spelling\n", fnRefKey(pk.PkgPath, fd))
 					}
 					continue
 				}
-				same := true
-				for i := range sh.Names {
-					if sh.Names[i] != r.Names[i] {
-						same = false
-					}
-				}
-				if same {
-					continue
-				}
-				// a reference name that is also used as a non-local name here would capture it
-				capture := false
-				for i, n := range r.Names {
-					if n != sh.Names[i] && nonLocal[n] {
-						capture = true
-						if os.Getenv("TVC_DEBUG") != "" {
-							fmt.Fprintf(os.Stderr, "canon-names: %s not renamed: reference local %q is also a non-local name here\n", fnRefKey(pk.PkgPath, fd), n)
-						}
-					}
-				}
-				// (not an obstacle: the shape hash covers every non-local identifier by name and position, so with the
-				// reference names the function is, token for token, the reference function — whatever it shadowed
-				// there it shadows here)
-				_ = capture
 				nFns++
-				for _, o := range occ {
-					if o.id.Name != r.Names[o.idx] {
-						edits = append(edits, alphaEdit{tf.Offset(o.id.Pos()), tf.Offset(o.id.End()), r.Names[o.idx]})
-					}
-				}
+				edits = append(edits, alphaEdit{off, end, r.Src})
 			}
 			if len(edits) == 0 {
-				continue
-			}
-			src, ok := given[tf.Name()]
-			if !ok {
-				b, err := os.ReadFile(tf.Name())
-				if err != nil {
-					continue
-				}
-				src = b
-			}
-			if len(src) != tf.Size() {
 				continue
 			}
 			sort.Slice(edits, func(i, j int) bool { return edits[i].off < edits[j].off })
 			var b strings.Builder
 			last := 0
 			for _, e := range edits {
-				if e.off < last {
-					continue
-				}
 				b.Write(src[last:e.off])
 				b.WriteString(e.name)
 				last = e.end
@@ -275,39 +304,55 @@ func canonicalNamesOverlay(pkgs []*packages.Package, given map[string][]byte) (m
 	return out, nFns
 }
 
-// writeNamesRef generates names_ref.json from the tree under repoDir.
+// writeNamesRef generates funcs_ref.json from the tree under repoDir.
 func writeNamesRef() error {
-	cfg := &packages.Config{Mode: packages.LoadSyntax | packages.NeedModule, Dir: repoDir, Env: goEnv(), BuildFlags: []string{"-tags=slicelabels"}}
-	pkgs, err := packages.Load(cfg, "./pkg/...", "./cmd/...", "./internal/...")
-	if err != nil {
-		return err
-	}
-	ref := map[string]fnShape{}
-	for _, pk := range pkgs {
-		if pk.TypesInfo == nil || len(pk.Errors) > 0 {
-			continue
+	ref := map[string]fnRef{}
+	dup := map[string]bool{}
+	for _, tags := range []string{"slicelabels", ""} {
+		cfg := &packages.Config{Mode: packages.LoadSyntax | packages.NeedModule, Dir: repoDir, Env: goEnv()}
+		if tags != "" {
+			cfg.BuildFlags = []string{"-tags=" + tags}
 		}
-		for _, f := range pk.Syntax {
-			tf := pk.Fset.File(f.Pos())
-			if tf == nil || isGenerated(tf.Name()) || !strings.HasPrefix(tf.Name(), repoDir+"/") {
+		pkgs, err := packages.Load(cfg, "./pkg/...", "./cmd/...", "./internal/...")
+		if err != nil {
+			return err
+		}
+		for _, pk := range pkgs {
+			if pk.TypesInfo == nil || len(pk.Errors) > 0 {
 				continue
 			}
-			for _, d := range f.Decls {
-				if fd, ok := d.(*ast.FuncDecl); ok && fd.Body != nil {
-					sh, _, _ := shapeOfFunc(pk.TypesInfo, fd)
-					if len(sh.Names) > 0 {
-						ref[fnRefKey(pk.PkgPath, fd)] = sh
+			for _, f := range pk.Syntax {
+				tf := pk.Fset.File(f.Pos())
+				if tf == nil || isGenerated(tf.Name()) || !strings.HasPrefix(tf.Name(), repoDir+"/") {
+					continue
+				}
+				src, err := os.ReadFile(tf.Name())
+				if err != nil || len(src) != tf.Size() {
+					continue
+				}
+				for _, d := range f.Decls {
+					fd, ok := d.(*ast.FuncDecl)
+					if !ok || fd.Body == nil {
+						continue
 					}
+					k := fnRefKey(pk.PkgPath, fd)
+					_, _, txt := declText(tf, src, fd)
+					if prev, ok := ref[k]; ok && prev.Src != txt {
+						dup[k] = true // several functions share the key (init, build-tagged twins): no reference
+						continue
+					}
+					ref[k] = fnRef{Hash: normHash(pk.TypesInfo, fd), Src: txt}
 				}
 			}
 		}
+	}
+	for k := range dup {
+		delete(ref, k)
 	}
 	b, err := json.Marshal(ref)
 	if err != nil {
 		return err
 	}
-	fmt.Printf("names_ref.json: %d functions\n", len(ref))
-	return os.WriteFile(filepath.Join(verifDir, "names_ref.json"), b, 0o644)
+	fmt.Printf("funcs_ref.json: %d functions\n", len(ref))
+	return os.WriteFile(filepath.Join(verifDir, "funcs_ref.json"), b, 0o644)
 }
-
-var _ = token.NoPos
